@@ -209,6 +209,35 @@ func selfCloseScenario(how string, c int) *explore.Scenario {
 	}}
 }
 
+// subscribeFails: a handler whose subscriber refuses the subscription: Run reports it instead of declaring the
+// router running with a handler that holds no subscription.
+func subscribeFailsScenario(c int) *explore.Scenario {
+	return &explore.Scenario{Name: "subscribe-fails", C: c, Body: func() {
+		e := newEnv()
+		e.addHandler("a", 1)
+		e.addHandler("b", 1)
+		bad := []string{"a", "b"}[vs.Choose(2, 0, "handler whose Subscribe fails")]
+		e.subs[bad].Close() // a closed ScriptSub returns an error from Subscribe
+		var runErr error
+		returned := false
+		go func() {
+			runErr = e.r.Run(context.Background())
+			returned = true
+		}()
+		vs.Quiesce()
+		if vs.PeekClosed(e.r.Running()) {
+			vs.Fail("running-after-subscribe", "Running() is closed although handler %s could not subscribe", bad)
+		}
+		if returned && runErr == nil {
+			vs.Fail("running-after-subscribe", "Run returned nil although handler %s could not subscribe", bad)
+		}
+		if !returned {
+			vs.Fail("running-after-subscribe", "handler %s could not subscribe: Run neither returned the error nor ... (still blocked at quiescence)", bad)
+		}
+		vs.Note("bad=%s err=%v", bad, runErr)
+	}}
+}
+
 // secondRun: a second Run returns an error.
 func secondRunScenario(c int) *explore.Scenario {
 	return &explore.Scenario{Name: "second-run", C: c, Body: func() {
@@ -460,6 +489,7 @@ func init() {
 		add(reg.Quick, 10, func(c int) *explore.Scenario { return selfCloseScenario(how, c) }, 1, 2)
 	}
 	add(reg.Quick, 5, func(c int) *explore.Scenario { return secondRunScenario(c) }, 1, 2)
+	add(reg.Quick, 5, func(c int) *explore.Scenario { return subscribeFailsScenario(c) }, 1, 2)
 	for L := 1; L <= 7; L++ {
 		L := L
 		tier := reg.Quick
